@@ -85,10 +85,26 @@ func TestVX_raceChild(t *testing.T) {
 		fileRpm := filepath.Join(job.Dir, "sys", "filefan", "rpm")
 		vxWriteInt(filePwm, 80)
 		vxWriteInt(fileRpm, 1200)
+		// two more file fans; in scenario "nopwm" their PWM files are unreadable at start (no PWM read-back -> default map)
+		// and nothing is stored for them
+		var extraFans string
+		parallel := "true"
+		if job.Scenario == "nopwm" || job.Scenario == "nopwm-parallel" {
+			if job.Scenario == "nopwm" {
+				parallel = "false"
+			}
+			for _, id := range []string{"fanD", "fanE"} {
+				pp := filepath.Join(job.Dir, "sys", id, "pwm")
+				os.MkdirAll(filepath.Dir(pp), 0755)
+				os.WriteFile(pp, []byte("n/a\n"), 0644)
+				extraFans += fmt.Sprintf("  - id: %s\n    curve: lin\n    controlAlgorithm: direct\n    file: {path: %s}\n", id, pp)
+			}
+		}
 		gosensors.VerifSetSpec([]gosensors.ChipSpec{{Prefix: "vxchip", BusType: 1, Addr: 0x290, Path: hw, Fans: []int{1, 2}, Temps: []int{1}}})
 		db := filepath.Join(job.Dir, "fan2go.db")
 		cfg := filepath.Join(job.Dir, "fan2go.yaml")
 		yaml := fmt.Sprintf(`dbPath: %s
+runFanInitializationInParallel: %s
 tempSensorPollingRate: %s
 rpmPollingRate: %s
 controllerAdjustmentTickRate: %s
@@ -108,7 +124,7 @@ fans:
     curve: lin
     controlAlgorithm: {direct: {maxPwmChangePerCycle: 10}}
     file: {path: %s, rpmPath: %s}
-sensors:
+%ssensors:
   - id: s
     hwmon: {platform: vxchip, index: 1}
 curves:
@@ -118,11 +134,11 @@ curves:
     pid: {sensor: s, setPoint: 60, p: -0.05, i: -0.005, d: -0.005}
   - id: shared
     function: {type: maximum, curves: [lin, pidc]}
-`, db, vxTempRate, vxRpmRate, vxTick, filePwm, fileRpm)
+`, db, parallel, vxTempRate, vxRpmRate, vxTick, filePwm, fileRpm, extraFans)
 		os.WriteFile(cfg, []byte(yaml), 0644)
 		pers := persistence.NewPersistence(db)
 		for _, id := range []string{"fanA", "fanB", "fanC"} {
-			if job.Scenario == "init" && id == "fanA" {
+			if (job.Scenario == "init" || job.Scenario == "nopwm" || job.Scenario == "nopwm-parallel") && id == "fanA" {
 				continue // fanA runs its initialisation sequence while the API is polled
 			}
 			data := map[int]float64{}
@@ -188,8 +204,32 @@ curves:
 }
 
 var vxRaceFrame = regexp.MustCompile(`^  (github\.com/markusressel/fan2go/[^\s(]+(?:\([^)]*\))?[^\s(]*)\(`)
+var vxRaceLoc = regexp.MustCompile(`^\s+(/[^\s:]+\.go):(\d+)`)
+var vxClosureSuffix = regexp.MustCompile(`\.func\d+(\.\d+)*$`)
+var vxSrcCache = map[string][]string{}
+var vxSrcMu sync.Mutex
 
-// vxParseRaces extracts, per report, the top fan2go (non-harness) frame of each of the two accesses.
+// vxSrcLine returns the trimmed source text of file:line (the racy statement), "" if unavailable.
+func vxSrcLine(file string, line int) string {
+	vxSrcMu.Lock()
+	defer vxSrcMu.Unlock()
+	ls, ok := vxSrcCache[file]
+	if !ok {
+		b, err := os.ReadFile(file)
+		if err == nil {
+			ls = strings.Split(string(b), "\n")
+		}
+		vxSrcCache[file] = ls
+	}
+	if line-1 < len(ls) && line >= 1 {
+		return strings.Join(strings.Fields(ls[line-1]), " ")
+	}
+	return ""
+}
+
+// vxParseRaces extracts, per report, the racy SITE of each of the two accesses: the top fan2go (non-harness) frame,
+// as "<function> at `<source statement>`" (the statement text makes the site independent of line numbers and of
+// closure numbering, and distinguishes different variables accessed by the same function).
 func vxParseRaces(text string) (pairs [][2]string, fatal []string) {
 	for _, l := range strings.Split(text, "\n") {
 		if strings.HasPrefix(l, "fatal error:") {
@@ -197,13 +237,13 @@ func vxParseRaces(text string) (pairs [][2]string, fatal []string) {
 		}
 	}
 	reports := strings.Split(text, "WARNING: DATA RACE")
+	secRe := regexp.MustCompile(`(?m)^(Read at|Write at|Previous read at|Previous write at|Goroutine \d+ \(|\[failed to restore the stack\])`)
 	for _, r := range reports[1:] {
 		if i := strings.Index(r, "=================="); i >= 0 {
 			r = r[:i]
 		}
-		// sections start with "Read at", "Write at", "Previous read at", "Previous write at", then "Goroutine ... created at"
 		var tops []string
-		sections := regexp.MustCompile(`(?m)^(Read at|Write at|Previous read at|Previous write at|Goroutine \d+ \(|\[failed to restore the stack\])`).FindAllStringIndex(r, -1)
+		sections := secRe.FindAllStringIndex(r, -1)
 		for si, loc := range sections {
 			head := r[loc[0]:loc[1]]
 			if strings.HasPrefix(head, "Goroutine") {
@@ -217,16 +257,25 @@ func vxParseRaces(text string) (pairs [][2]string, fatal []string) {
 			if strings.HasPrefix(head, "[failed") {
 				top = "<stack not restored>"
 			}
-			for _, l := range strings.Split(r[loc[0]:end], "\n") {
+			lines := strings.Split(r[loc[0]:end], "\n")
+			for li, l := range lines {
 				if m := vxRaceFrame.FindStringSubmatch(l); m != nil {
 					fn := m[1]
 					if strings.Contains(fn, "/verifshim/") || strings.Contains(fn, ".vx") || strings.Contains(fn, ".TestVX") {
 						continue
 					}
 					fn = strings.TrimPrefix(fn, "github.com/markusressel/fan2go/")
-					// closures: keep the enclosing function
-					fn = regexp.MustCompile(`\.func\d+(\.\d+)*$`).ReplaceAllString(fn, "")
+					fn = vxClosureSuffix.ReplaceAllString(fn, "")
 					top = fn
+					if li+1 < len(lines) {
+						if lm := vxRaceLoc.FindStringSubmatch(lines[li+1]); lm != nil {
+							n := 0
+							fmt.Sscanf(lm[2], "%d", &n)
+							if src := vxSrcLine(lm[1], n); src != "" {
+								top = fn + " at `" + src + "`"
+							}
+						}
+					}
 					break
 				}
 			}
@@ -302,6 +351,11 @@ func TestVX_C20(t *testing.T) {
 		seen := map[string]bool{}
 		for _, p := range pairs {
 			a, b := p[0], p[1]
+			// the logging mutex is a no-op in this build (harness/nosync): races inside the logging library are artefacts
+			if strings.HasPrefix(a, "internal/ui.") || strings.HasPrefix(b, "internal/ui.") {
+				rep.Count("ignored_reports_inside_logging", 1)
+				continue
+			}
 			if a > b {
 				a, b = b, a
 			}
@@ -316,7 +370,7 @@ func TestVX_C20(t *testing.T) {
 				if fn == b {
 					other = a
 				}
-				rep.Violate(mc.Violation{Signature: "C20 unsynchronised access in " + fn, Detail: fmt.Sprintf("data race reported between %s and %s\njob: %s", fn, other, job), Replay: vxC20Case{job}})
+				rep.Violate(mc.Violation{Signature: "C20 unsynchronised access: " + fn, Detail: fmt.Sprintf("data race reported between\n  %s\nand\n  %s\njob: %s", fn, other, job), Replay: vxC20Case{job}})
 			}
 		}
 	}
@@ -333,7 +387,7 @@ func TestVX_C20(t *testing.T) {
 		offsets = []int{0, 37, 50003, 100011, 150029, 2400031, 3400027, 3500017, 3600023}
 		periods = [][2]int{{170, 230}, {1003, 517}, {53, 71}}
 	}
-	for _, sc := range []string{"regulate", "stall", "init"} {
+	for _, sc := range []string{"regulate", "stall", "init", "nopwm", "nopwm-parallel"} {
 		for pi, per := range periods {
 			for ai, ao := range offsets {
 				for mi, mo := range offsets {
@@ -341,7 +395,13 @@ func TestVX_C20(t *testing.T) {
 						continue
 					}
 					run := 6500
-					if sc == "init" {
+					if sc == "nopwm-parallel" {
+						// the fans without PWM read-back start together with everything else; a short run is enough
+						if pi != 0 || ai != mi {
+							continue
+						}
+					}
+					if sc == "init" || sc == "nopwm" {
 						// the initialisation sequence takes about 9 virtual minutes: fewer, slower pollers
 						run = 9*60*1000 + 30000
 						if per[0] < 1000 || (!mc.Thorough() && (ai != mi || ai%2 == 1)) {
